@@ -65,8 +65,15 @@ def check_one_origin(ctx, rule, body, role):
         # the padding count: the `take(n)` applied to the repeated zero that is chained after the interleaved vectors
         st0 = strip_mut(static)
         pad = None
+        padv = None
         if st0.tag == 'chain' and strip_mut(st0[2]).tag == 'adapt' and strip_mut(st0[2])[1] == 'take' and len(strip_mut(st0[2]).args) >= 3:
             pad = strip_mut(st0[2])[3]
+            src = strip_mut(strip_mut(st0[2])[2])
+            padv = src[1] if src.tag == 'repeat' else None
+        elif st0.tag == 'chain' and strip_mut(st0[2]).tag == 'repeatv':
+            # repeat(x).take(n) / repeat_with(f).take(n): n copies of x (engine normal form)
+            pad = strip_mut(st0[2])[2]
+            padv = strip_mut(st0[2])[1]
         if pad is None:
             rep.violation(rule, key + '/padding', 'static scalars are not padded by take(repeat(0), n): %s' % short(static, 200), where)
             continue
@@ -83,7 +90,10 @@ def check_one_origin(ctx, rule, body, role):
                                                                                                  [short(x, 100) for x in hits] or 'absent from the padding count'), where)
         # the padding must bound a `take` over a repeat of zero chained after the interleaved vectors
         st = strip_mut(static)
-        shape_ok = st.tag == 'chain' and strip_mut(st[1]).tag == 'interleave' and strip_mut(st[2]).tag == 'adapt' and strip_mut(st[2])[1] == 'take'
+        shape_ok = st.tag == 'chain' and strip_mut(st[1]).tag == 'interleave' and ((strip_mut(st[2]).tag == 'adapt' and strip_mut(st[2])[1] == 'take') or strip_mut(st[2]).tag == 'repeatv')
+        if padv is not None:
+            zero = canon(padv) in ('S0', 'ZERO') or (padv.tag == 'item' and padv[1].endswith('::ZERO'))
+            rep.check(zero, rule, key + '/padding-value', 'the padding scalars are zero', 'the static scalars are padded with %s, not with zero' % short(padv, 60), where)
         rep.check(shape_ok, rule, key + '/shape', 'static scalars = chain(interleave(G-scalars, H-scalars), take(repeat(0), padding))',
                   'static scalars do not have the shape chain(interleave(..), take(repeat(0), padding)): %s' % short(static, 200), where)
         res.append({'bb': bb, 'recv': recv, 'statement': st_recv, 'static': static, 'pad': pad, 'dyn_scalars': a[2], 'dyn_points': a[3]})
@@ -209,6 +219,7 @@ def check_consistency_pair(ctx, rule):
             det.append('index assigned at bb%d without a length assignment in the same block' % dbb)
             continue
         lt = ctx.eng.rvalue(c, ld[0], ld[1], ld[3]['rv']) if ld[2] == 'assign' else ctx.eng.call_result(c, ld[0])
+        lt = ctx.eng.expand(lt)
         # the length must be len(X.commitments) * X.bit_length with X the statement at that index
         st = None
         for x in walk(lt):
@@ -223,6 +234,20 @@ def check_consistency_pair(ctx, rule):
             idxs = [y for y in walk(it)] if it is not None else []
             isrc = [y[1] for y in idxs if y.tag == 'index']
             good = st is not None and mul and bool(isrc) and any(src_of_elem(st) in zip_parts(z) for z in isrc)
+            if st is not None and mul and isrc and not good:
+                # the index is drawn from 0..len(X) zipped, in one driver, with X itself: the position in X all the same
+                X = src_of_elem(st)
+                for z in isrc:
+                    if z.tag == 'range' and z[1].tag == 'const' and z[1][1] == 0 and z[2].tag == 'call' and z[2][1].endswith('::len') and X is not None \
+                            and strip_mut(z[2][2][0]) is strip_mut(X) and set(ctx.adapters(it)) == set(ctx.adapters(lt)):
+                        lps = ctx.enclosing_loops(c, dbb)
+                        drv = lps[-1].iter_term if lps else None
+                        parts = set()
+                        for y in (walk(drv) if drv is not None else ()):
+                            if y.tag == 'zip':
+                                parts |= {strip_mut(p).id for p in zip_parts(y)}
+                        if z.id in parts and strip_mut(X).id in parts:
+                            good = True
         det.append('bb%d: index=%s length=%s' % (dbb, short(it, 60) if it is not None else None, short(lt, 120)))
         ok = ok and good
     if len(idefs) < 2:
